@@ -36,7 +36,14 @@ TLists == {<<T("fmap", <<(<<fA, <<x1>>>>)>>, <<>>, <<>>, FALSE, All)>>,
            <<T("case", <<>>, <<>>, <<>>, TRUE, All)>>,
            <<T("setvalue", <<>>, <<>>, <<115,118>>, FALSE, All)>>,
            <<T("addcond", <<>>, <<105,100,120>>, <<109,97,105,110>>, FALSE, All)>>,
-           <<T("drop", <<>>, <<>>, <<>>, FALSE, [mode |-> "include", names |-> <<(<<102,66>>)>>])>>}
+           <<T("drop", <<>>, <<>>, <<>>, FALSE, [mode |-> "include", names |-> <<(<<102,66>>)>>])>>,
+           \* transformations that change the TYPE or the SHAPE of what an item holds
+           <<T("regex", <<>>, <<112,108,97,105,110>>, <<>>, FALSE, All)>>,                                          \* regex: plain
+           <<T("regex", <<>>, <<105,103,110,111,114,101,95,99,97,115,101,95,98,114,97,99,107,101,116,115>>, <<>>, FALSE, All)>>,   \* ignore_case_brackets
+           <<T("regex", <<>>, <<105,103,110,111,114,101,95,99,97,115,101,95,102,108,97,103>>, <<>>, FALSE, All)>>,          \* ignore_case_flag
+           <<T("hashes", <<(<<(<<77,68,53>>), <<>>>>), (<<(<<83,72,65,49>>), <<>>>>)>>, <<70,105,108,101>>, <<>>, FALSE, All)>>,
+           <<T("fmap", <<(<<fA, <<x1>>>>), (<<(<<102,76>>), <<x1>>>>), (<<(<<103,56>>), <<x2>>>>)>>, <<>>, <<>>, TRUE, All)>>,     \* one-element target lists
+           <<T("fmap", <<(<<(<<102,82>>), <<x1>>>>), (<<(<<102,90>>), <<x1>>>>), (<<fA, <<(<<102,66>>)>>>>)>>, <<>>, <<>>, FALSE, All)>>}  \* two fields onto one name
 Cases == {[kind |-> "rule", doc |-> Doc(Pool[a], c), Ts |-> <<>>] : a \in 1..Len(Pool), c \in {<<N_sel1>>, <<N_sel1, C_notsel1>>}}
          \cup {[kind |-> "rule", doc |-> Doc(ValBody(s, ch), <<N_sel1>>), Ts |-> <<>>] :
                  s \in SeqsUpTo(Alpha, IF Quick THEN 3 ELSE 4), ch \in Chains}
